@@ -447,6 +447,31 @@ StepPost(cfg, orc, argv, st) ==
   ELSE [st EXCEPT !.phase = "parsed", !.act = "Return", !.warn = w.warn, !.rest = w.text,
                   !.restnil = FALSE]
 
+\* ---- the GetRequiredArg / GetRequiredArgInt / GetRequiredArgFloat64 helpers a command function may use to take
+\* its positional arguments one by one: a missing argument writes "ERROR: Missing <name>" (the name declared with
+\* HelpSynopsisArg at that position, if any) followed by the synopsis and answers ErrorHelpCalled; the position
+\* advances on every call
+MissingLine(cfg, n, idx) ==
+  IF idx <= Len(Node(cfg, n).args)
+  THEN <<"E","R","R","O","R",":"," ","M","i","s","s","i","n","g"," ">> \o Node(cfg, n).args[idx]
+  ELSE <<"E","R","R","O","R",":"," ","M","i","s","s","i","n","g"," ","r","e","q","u","i","r","e","d"," ","a","r","g","u","m","e","n","t">>
+RECURSIVE ReqFold(_, _, _, _, _, _)
+ReqFold(cfg, orc, n, kinds, args, idx) ==
+  IF kinds = <<>> THEN <<>>
+  ELSE
+  LET k == Head(kinds) IN
+  IF args = <<>> THEN
+     <<[ek |-> "missing", val |-> <<>>, msg |-> MissingLine(cfg, n, idx), syn |-> TRUE, left |-> 0]>>
+       \o ReqFold(cfg, orc, n, Tail(kinds), <<>>, idx + 1)
+  ELSE
+  LET a == Head(args) rest == Tail(args) e == Orc(orc, a)
+      one == CASE k = "i" -> IF e.i THEN [ek |-> "", val |-> <<e.ic>>, msg |-> <<>>, syn |-> FALSE, left |-> Len(rest)]
+                             ELSE [ek |-> "conv", val |-> <<>>, msg |-> <<>>, syn |-> FALSE, left |-> Len(rest)]
+               [] k = "f" -> IF e.f THEN [ek |-> "", val |-> <<e.fb>>, msg |-> <<>>, syn |-> FALSE, left |-> Len(rest)]
+                             ELSE [ek |-> "conv", val |-> <<>>, msg |-> <<>>, syn |-> FALSE, left |-> Len(rest)]
+               [] OTHER -> [ek |-> "", val |-> a, msg |-> <<>>, syn |-> FALSE, left |-> Len(rest)]
+  IN <<one>> \o ReqFold(cfg, orc, n, Tail(kinds), rest, idx + 1)
+
 \* ---- Dispatch (only after a successful Parse)
 StepDispatch(cfg, orc, argv, st) ==
   LET n == st.node nd == Node(cfg, n) IN
@@ -462,7 +487,8 @@ StepDispatch(cfg, orc, argv, st) ==
         ELSE [st EXCEPT !.phase = "done", !.act = "RunHelpNoTopic", !.derr = "notopic"]
      ELSE [st EXCEPT !.phase = "done", !.act = "RunHelp", !.derr = "help", !.helpof = nd.parent]
   ELSE IF nd.fn THEN
-     [st EXCEPT !.phase = "done", !.act = "DispatchFn", !.ran = <<[node |-> n, args |-> st.rest]>>]
+     [st EXCEPT !.phase = "done", !.act = "DispatchFn",
+                !.ran = <<[node |-> n, args |-> st.rest, req |-> ReqFold(cfg, orc, n, nd.reqargs, st.rest, 1)]>>]
   ELSE IF nd.parent # 0 THEN
      IF Cardinality(Children(cfg, n)) > 1
      THEN [st EXCEPT !.phase = "done", !.act = "DispatchLanding", !.derr = "help", !.helpof = n]
